@@ -31,8 +31,16 @@ NOT_APPLICABLE = {}
 PENDING = ["C05","C06","C07","C08","C09","C10","C11","C12","C13","C14","C15","C16","C17","C18","C19"]
 
 def main():
-    extra_path = os.path.join(V, "tools", "manifest_extra.json")
-    extra = json.load(open(extra_path)) if os.path.exists(extra_path) else {}
+    extra = {"checks": {}, "not_applicable": {}}
+    d = os.path.join(V, "tools", "manifest_entries")
+    if os.path.isdir(d):
+        for f in sorted(os.listdir(d)):
+            if f.endswith(".json"):
+                e = json.load(open(os.path.join(d, f)))
+                if "reason" in e:
+                    extra["not_applicable"][f[:-5]] = e["reason"]
+                else:
+                    extra["checks"][f[:-5]] = e
     checks = []
     allc = dict(CHECKS)
     allc.update(extra.get("checks", {}))
